@@ -26,6 +26,9 @@ def run_one(prop, patch, extra_props=()):
                 if line.startswith("# expect:"):
                     expect = line.split(":", 1)[1].strip()
         out = {}
+        if os.path.basename(patch).startswith("silent-all"):
+            # behaviour-preserving refactor written by an independent party: *no* check may alarm on it
+            extra_props = tuple("C%02d" % i for i in range(1, 21) if "C%02d" % i != prop)
         for p in (prop,) + tuple(extra_props):
             env = dict(os.environ, MB2_REPO=repo, MB2_OUT_DIR=os.path.join(scratch, "out"),
                        MB2_EVIDENCE_DIR=os.path.join(scratch, "ev"))
@@ -47,9 +50,10 @@ def run_one(prop, patch, extra_props=()):
                 return "INFRA(rc=2)", log[-400:]
             return "MISSED", "exit %d" % rc
         else:
-            if rc == 0:
-                return "OK(silent)", ""
-            return "FALSE-ALARM", "; ".join(keys[:6]) + (log[-300:] if rc == 2 else "")
+            bad = {p: v for p, v in out.items() if v[0] != 0}
+            if not bad:
+                return "OK(silent%s)" % (" x%d" % len(out) if len(out) > 1 else ""), ""
+            return "FALSE-ALARM", "; ".join("%s: %s" % (p, "; ".join(v[1][:3]) + (v[2][-200:] if v[0] == 2 else "")) for p, v in bad.items())
     finally:
         shutil.rmtree(scratch, ignore_errors=True)
 
